@@ -155,15 +155,16 @@ CHECKS["C14"] = dict(
           "connectivity values, order and winding; EVERY proper line-prefix of a written file (header, vertex section, between "
           "sections, element section) yields no mesh; an OFF file per the format definition (any number of leading comment lines, "
           "counts, vertices, faces '3 a b c') loads to the mesh it describes; a Gmsh 2 ASCII tetrahedral file (arbitrary ids and "
-          "tags, 1-based nodes) loads with zero-based indices; files of the wrong kind (tetra VTK read as triangles and "
+          "tags, 1-based nodes) loads with zero-based indices; a VTK file with TRIANGLE_STRIPS loads to the triangles the format "
+          "definition assigns to each strip (position-based spec, alternating winding); files of the wrong kind (tetra VTK read as triangles and "
           "vice versa, VTK read as OFF) yield no mesh; FreeSurfer surfaces at field level (layout written by nibabel, reader "
           "lapy/_read_geometry.py): read(write(v, t, header)) = (single-precision v, t, header) for heads [20] / [2,0,20], every prefix "
           "ending before the end of the element section is rejected, a wrong magic number is rejected. Number<->text conversion (Python str / C strtod) is abstracted and covered by "
           "correspondence: the model writer must produce the token stream of the real file and the model readers (VTK, OFF) must return "
           "what the real readers return on written, foreign and every line-truncated file; FreeSurfer files are split into fields by "
           "an independent tokenizer and model writer / reader are compared with nibabel's bytes and read_fssurf on complete, "
-          "byte-truncated and wrong-magic files; Gmsh files (complete and truncated) go through the model reader. Triangle "
-          "strips, write_ev/read_ev (bit-exact, all shapes, edit histories) and write_vfunc/read_vfunc are decided by round-trip oracles on "
+          "byte-truncated and wrong-magic files; Gmsh files (complete and truncated) and strips files go through the model reader. "
+          " write_ev/read_ev (bit-exact, all shapes, edit histories) and write_vfunc/read_vfunc are decided by round-trip oracles on "
           "the implementation only (partial: no model of those formats; byte encodings of int32/float32 and number formatting abstracted)."),
     design="6/C14", technique="Coq proof over token-stream codec model (list induction) + vm_compute correspondence + round-trip oracles")
 
